@@ -588,6 +588,82 @@ class Lowering:
         return self.rec_lookup(base) is None and matches(TRIVIAL_EXT, cname(base))
 
 
+def _base_recs(self, r):
+    out = []
+    for b in r.bases:
+        bq = b['type'].get('desugaredQualType') or b['type']['qualType']
+        rr = self.rec_of_type(bq)
+        if rr is not None:
+            out.append(rr)
+    return out
+
+
+def poly_root(self, r):
+    """the polymorphic root class of r (single inheritance: first polymorphic base chain)"""
+    cur = r
+    while True:
+        bs = [b for b in self._base_recs(cur) if b.node.get('definitionData', {}).get('isPolymorphic')]
+        if not bs:
+            return cur
+        cur = bs[0]
+
+
+def derives_from(self, r, base):
+    cur = [r]
+    seen = set()
+    while cur:
+        x = cur.pop()
+        if x is base:
+            return True
+        if id(x) in seen:
+            continue
+        seen.add(id(x))
+        cur.extend(self._base_recs(x))
+    return False
+
+
+def all_recs(self):
+    seen = set()
+    out = []
+    for r in self.rec_of_id.values():
+        if id(r) not in seen:
+            seen.add(id(r))
+            out.append(r)
+    return out
+
+
+def overriders(self, owner, decl):
+    """final overrider of virtual `decl` (declared in owner) for every concrete class derived from owner"""
+    name = decl.get('name')
+    sig = fsig_params(decl['type']['qualType'])[0]
+    out = []
+    for r in self.all_recs():
+        if r.is_lambda or not self.derives_from(r, owner):
+            continue
+        # walk from r up to owner: first class that declares the member
+        cur = r
+        found = None
+        while cur is not None and found is None:
+            for m in cur.methods:
+                if m.get('name') == name and fsig_params(m['type']['qualType'])[0] == sig and not m.get('pure'):
+                    f = self.find_fn(m['id'])
+                    if f is not None:
+                        found = f
+                        break
+            nxt = [b for b in self._base_recs(cur) if self.derives_from(b, owner)]
+            cur = nxt[0] if nxt else None
+        if found is not None:
+            out.append((r, found))
+    return out
+
+
+Lowering._base_recs = _base_recs
+Lowering.poly_root = poly_root
+Lowering.derives_from = derives_from
+Lowering.all_recs = all_recs
+Lowering.overriders = overriders
+
+
 def toplevel_paren(s):
     d = 0
     for ch in s:
@@ -812,8 +888,8 @@ def emit_structs(L, ext_structs=None):
             q = qt(fd)
             nm = 'cap%d' % i if r.is_lambda else fd['name']
             lines.append('  %s %s;' % (L.ctype(q), nm))
-        if r.node.get('definitionData', {}).get('isPolymorphic'):
-            lines.insert(1, '  int vf_vtag;')
+        if r.node.get('definitionData', {}).get('isPolymorphic') and L.poly_root(r) is r:
+            lines.insert(1, '  int vf_vtag;   /* dynamic type (lowering of the vtable pointer) */')
         if len(lines) == 1:
             lines.append('  char vf_empty;')
         lines.append('};')
@@ -919,8 +995,29 @@ def lower_all(path, only=None, ext_structs=None):
         meta['records'].append({'cname': r.cname, 'full': r.full, 'tname': r.tname,
                                 'targs': [sanitize(a) for a in r.targs],
                                 'fields': [[('cap%d' % i if r.is_lambda else fd['name']), L.ctype(qt(fd))] for i, fd in enumerate(r.fields)]})
+    # dynamic-type tags and virtual-destructor dispatchers for polymorphic hierarchies
+    tagdefs = []
+    polys = [r for r in L.all_recs() if r.node.get('definitionData', {}).get('isPolymorphic')]
+    for i, r in enumerate(polys):
+        tagdefs.append('#define VF_TAG_%s %d' % (r.cname, i + 1))
+    for root in [r for r in polys if L.poly_root(r) is r]:
+        lines = ['/* virtual destructor dispatch for the hierarchy rooted at %s (lowering of the vtable) */' % root.full,
+                 'void %s__vdtor(struct %s* p)' % (root.cname, root.cname), '{']
+        first = True
+        for r in polys:
+            if L.poly_root(r) is not root:
+                continue
+            if r.node.get('definitionData', {}).get('isAbstract'):
+                continue
+            lines.append('  %sif (p->vf_vtag == VF_TAG_%s) %s__dtor((struct %s*)p);' % ('' if first else 'else ', r.cname, r.cname, r.cname))
+            first = False
+        lines.append('  %s__CPROVER_assert(0, "[vcall] object with a dynamic type outside the lowered class hierarchy is destroyed");' % ('' if first else 'else '))
+        lines.append('}')
+        texts.append('\n'.join(lines))
+        text_of[root.cname + '__vdtor'] = '\n'.join(lines)
+        protos.append('void %s__vdtor(struct %s* p);' % (root.cname, root.cname))
     structs = emit_structs(L, ext_structs)
-    decls = '\n'.join(['/* generated by cxx2c from %s — do not edit */' % path, structs, '',
+    decls = '\n'.join(['/* generated by cxx2c from %s — do not edit */' % path, '\n'.join(tagdefs), structs, '',
                        '\n'.join(L.static_defs), '', '\n'.join(protos), ''])
     defs = '\n\n'.join(texts) + '\n'
     meta['texts'] = text_of
